@@ -237,6 +237,15 @@ class Tamper:
             else:
                 t["body"] = rng.randbytes(rng.choice([0, 1, 24, 40, 80])).hex()
             return [("tampered", t)] + out
+        if kind == "replay-foreign":
+            # frames recorded in an EARLIER session of this process (another mailbox, another key), handed to the
+            # victim under their old labels before the genuine messages of those phases
+            outm = []
+            for m in getattr(self, "foreign", []):
+                m = dict(m)
+                m["id"] = "%04x" % rng.getrandbits(16)
+                outm.append(("tampered", m))
+            return outm + out
         if kind == "swap":
             return [("hold", kw)]
         if kind == "replay-old":
